@@ -23,6 +23,10 @@ fn encrypt_ip(ip: &Value, key: Value, mode: &Value) -> Resolved {
         }
         "pfx" => {
             let key = to_key::<32>(key, "pfx", ip_ver_label)?;
+            // `IpcryptPfx::new` asserts that the two halves of the key differ.
+            if key[..16] == key[16..] {
+                return Err("pfx mode requires a key whose two 16-byte halves differ".into());
+            }
             IpcryptPfx::new(key).encrypt_ipaddr(ip_addr)
         }
         other => {
